@@ -64,7 +64,9 @@ def oracle_stream(case) -> Info:
     base, rd = run(stuffing, abort, [stream])
     compare(stuffing, abort, stream, base, G.split(stream, ("bytewise",)), "bytewise")
     if cuts[0] not in ("none", "bytewise"):
-        compare(stuffing, abort, stream, base, G.split(stream, cuts), str(cuts)[:60])
+        chunks = G.split(stream, cuts)
+        compare(stuffing, abort, stream, base, chunks, str(cuts)[:60])
+        compare(stuffing, abort, stream, base, [x for ch in chunks for x in (ch, b"")], str(cuts)[:60] + " with an empty read() after every chunk")
     cps = G.cut_points(stream, cuts) if cuts[0] != "none" else set(range(1, len(stream)))
     near_special = any((c < len(stream) and stream[c] in (FLAG, ESC)) or (c > 0 and stream[c - 1] in (FLAG, ESC)) for c in cps)
     mid_frame = not rd.is_in_hunt_mode
@@ -213,6 +215,8 @@ def oracle_tokens(seq) -> Info:
         compare(stuffing, abort, stream, base, [stream[i : i + 1] for i in range(len(stream))], "bytewise")
         for k in range(1, len(stream)):
             compare(stuffing, abort, stream, base, [stream[:k], stream[k:]], f"single cut at {k}")
+            if stream[k - 1] in (FLAG, ESC) or stream[k] in (FLAG, ESC):
+                compare(stuffing, abort, stream, base, [stream[:k], b"", stream[k:]], f"single cut at {k} with an empty read() in between")
         # token-boundary multi-cut, and an empty chunk in the middle
         compare(stuffing, abort, stream, base, [TOKENS[t][1] for t in seq], "token boundaries")
         h = len(stream) // 2
@@ -250,6 +254,7 @@ def escape_pair_oracle(case) -> Info:
         compare(stuffing, abort, wire, base, [wire[i : i + 1] for i in range(len(wire))], "bytewise")
         for c in range(1, len(wire)):
             compare(stuffing, abort, wire, base, [wire[:c], wire[c:]], f"single cut at {c}")
+            compare(stuffing, abort, wire, base, [wire[:c], b"", wire[c:]], f"single cut at {c} with an empty read() in between")
     return Info(nontrivial=frames_any, classes=(f"shape:{shape}",), sample={"escaped_octet": x, "shape": shape})
 
 
